@@ -31,6 +31,10 @@ def run(tier, seed):
         for ka in range(6):
             h = Harness(ck, 'c10_books_a%d' % ka, bsrc.replace('__KIND_A__', str(ka))); hs.append(h)
             batch.add(h, T, only=['book_ok'], bounds='ring A1->B1->C1->A1, A1 of kind %d, B1 and C1 any of 6 kinds (constant, plain, IF-then, IF-else, IFERROR fallback, both IF branches), guard TRUE/FALSE: 72 workbooks' % ka)
+        b2 = open(os.path.join(ROOT, 'harness', 'c10_books2.py')).read()
+        for kb in range(6):
+            h = Harness(ck, 'c10_books2_b%d' % kb, b2.replace('__KB__', str(kb))); hs.append(h)
+            batch.add(h, T, only=['book2_ok'], bounds='B1 = expression #%d (nested IF guards, up to two guarded back references), C1 and D1 any of 4 expressions each, both guards TRUE/FALSE: 64 workbooks with cycles sharing a cell' % kb)
         batch.run()
     finally:
         for h in hs:
